@@ -87,6 +87,10 @@ def draw_cfg(rng, profile, tier):
         kw['spawn'] = 0.0
     cfg['kinds'] = kw
     cfg['probes'] = p.get('probes', {})
+    if p.get('md_cats'):
+        cfg['md_cats'] = list(p['md_cats'])
+    if p.get('md_full'):
+        cfg['md_full'] = True
     cfg['profile'] = p.get('name', '?')
     cfg['tier'] = tier
     return cfg
@@ -133,7 +137,7 @@ class Gen:
         if rng.random() < 0.5:
             rng.shuffle(is_)
         ncat = len(V.MD_CATS)
-        allowed = cfg.get('md_cats') or list(range(ncat))
+        allowed = cfg.get('md_cats') or list(range(V.N_BASIC_CATS))
 
         def mdmask():
             if rng.random() >= cfg['md_rate']:
@@ -253,7 +257,7 @@ class Gen:
             mutating_inplace = bool(ev['inp'])
         elif name == 'add_metadata':
             ncat = len(V.MD_CATS)
-            allowed = cfg.get('md_cats') or list(range(ncat))
+            allowed = cfg.get('md_cats') or list(range(V.N_BASIC_CATS))
             km = 0
             for c in rng.sample(allowed, min(rng.randint(1, 2), len(allowed))):
                 km |= 1 << c
